@@ -18,6 +18,7 @@ use std::cell::{Cell, RefCell};
 use std::collections::{BTreeMap, BTreeSet, HashMap};
 use std::marker::PhantomData;
 use std::rc::Rc;
+use std::sync::atomic::{AtomicUsize, Ordering as AtomicOrdering};
 use std::sync::{Arc, Barrier, Mutex, OnceLock, RwLock};
 
 use async_graphql_parser::types::{
@@ -266,10 +267,40 @@ fn hash_free(defs: &BTreeMap<String, extract::Def>, root: &str) -> bool {
     true
 }
 
+const INTERIOR: &[&str] = &[
+    "Cell", "RefCell", "UnsafeCell", "OnceCell", "OnceLock", "LazyCell", "LazyLock", "Mutex", "RwLock", "Condvar",
+    "Once", "Barrier",
+];
+
+/// no cell / lock / atomic in any definition reachable from `root` (independent of the Lean walk)
+fn immutable_from(defs: &BTreeMap<String, extract::Def>, root: &str) -> bool {
+    if !defs.contains_key(root) {
+        return false;
+    }
+    let mut seen: BTreeSet<String> = BTreeSet::new();
+    let mut todo = vec![root.to_string()];
+    while let Some(n) = todo.pop() {
+        let Some(d) = defs.get(&n) else { continue };
+        if !seen.insert(n) {
+            continue;
+        }
+        for (_, t) in &d.fields {
+            let mut names = vec![];
+            ty_names(t, &mut names);
+            if names.iter().any(|n| INTERIOR.contains(&n.as_str()) || n.starts_with("Atomic")) {
+                return false;
+            }
+            todo.extend(names);
+        }
+    }
+    true
+}
+
 // ------------------------------------------------------------------------------------------------
 // (d) runtime
 // ------------------------------------------------------------------------------------------------
 const THREADS: usize = 16;
+const FRESH_THREADS: usize = 8;
 const ROW_LIMIT: usize = 2000;
 fn test_dir() -> String {
     format!("{}/trustfall_core/test_data/tests", extract::default_repo())
@@ -421,6 +452,90 @@ impl C24 {
         self.results.borrow_mut().insert(line.to_string(), r);
     }
 
+    /// FIRST executions race: every round compiles a fresh query from the shared schema and releases
+    /// `FRESH_THREADS` threads (own adapter each) that all start executing that same brand-new
+    /// `Arc<IndexedQuery>` at the same moment; afterwards the shared compiled query is executed once
+    /// more sequentially.  Reference rows come from an independently compiled copy, executed on
+    /// this thread only.  (A lazily filled cache inside the compiled query that is populated
+    /// incorrectly under a race shows up in some thread's rows or in the re-execution.)
+    fn run_fresh(&self, line: &str, test: &TestGraphQLQuery, rounds: usize) {
+        let schema_holder = self.adapter.clone(); // owns the shared Schema
+        let args = args_of(test);
+        let mut r = Shared { threads: FRESH_THREADS, ..Default::default() };
+        let reference_q = match compile(schema_holder.schema(), &test.query) {
+            Ok(q) => q,
+            Err(e) => {
+                r.compile_mismatch = 1;
+                r.detail = format!("reference compilation failed: {e}");
+                self.results.borrow_mut().insert(line.to_string(), r);
+                return;
+            }
+        };
+        let reference = execute(&Arc::new(NumbersAdapter::new()), &reference_q, &args);
+        r.sequential_rows = if reference.is_empty() { 0 } else { reference.lines().count() };
+        let adapters: Vec<Arc<NumbersAdapter>> = (0..FRESH_THREADS).map(|_| Arc::new(NumbersAdapter::new())).collect();
+        let main_adapter = Arc::new(NumbersAdapter::new());
+        for round in 0..rounds {
+            let shared_q = match compile(schema_holder.schema(), &test.query) {
+                Ok(q) => q,
+                Err(e) => {
+                    r.compile_mismatch += 1;
+                    r.detail = format!("round {round}: compilation failed: {e}");
+                    break;
+                }
+            };
+            if shared_q != reference_q {
+                r.compile_mismatch += 1;
+                r.detail = format!("round {round}: a fresh compilation differs from the reference compilation");
+            }
+            let barrier = Barrier::new(FRESH_THREADS);
+            let arrived = AtomicUsize::new(0);
+            let outcomes: Vec<String> = std::thread::scope(|scope| {
+                let workers: Vec<_> = adapters
+                    .iter()
+                    .map(|adapter| {
+                        let (shared_q, args, barrier, arrived) = (&shared_q, &args, &barrier, &arrived);
+                        scope.spawn(move || {
+                            barrier.wait();
+                            // tighten the release: spin until everybody is past the barrier
+                            arrived.fetch_add(1, AtomicOrdering::SeqCst);
+                            let mut spins = 0u32;
+                            while arrived.load(AtomicOrdering::SeqCst) < FRESH_THREADS && spins < 200_000 {
+                                std::hint::spin_loop();
+                                spins += 1;
+                            }
+                            execute(adapter, shared_q, args)
+                        })
+                    })
+                    .collect();
+                workers.into_iter().map(|w| w.join().unwrap_or_else(|_| "panic: worker died".to_string())).collect()
+            });
+            let bad = outcomes.iter().filter(|o| **o != reference).count();
+            if bad > 0 {
+                r.rows_mismatch_shared_query += bad;
+                let first = outcomes.iter().find(|o| **o != reference).unwrap();
+                r.detail = format!(
+                    "round {round}: {bad} of {FRESH_THREADS} threads executing the same fresh compiled query got rows different from the sequential reference; e.g. first differing line: want {:?} got {:?}",
+                    reference.lines().zip(first.lines()).find(|(a, b)| a != b).map(|x| x.0).unwrap_or("<length differs>"),
+                    reference.lines().zip(first.lines()).find(|(a, b)| a != b).map(|x| x.1).unwrap_or("<length differs>"),
+                );
+            }
+            let again = execute(&main_adapter, &shared_q, &args);
+            if again != reference {
+                r.rows_mismatch_own_query += 1;
+                if bad == 0 {
+                    r.detail = format!(
+                        "round {round}: after concurrent use, a sequential re-execution of the shared compiled query differs from the reference"
+                    );
+                }
+            }
+            if r.rows_mismatch_shared_query + r.rows_mismatch_own_query > 0 {
+                break; // one failing schedule is enough
+            }
+        }
+        self.results.borrow_mut().insert(line.to_string(), r);
+    }
+
     /// all queries at once: every thread walks its own random order over a shared table of compiled
     /// queries, so different queries (and the same ones) execute simultaneously
     fn run_mix(&self, line: &str, seed: u64, per_thread: usize) {
@@ -481,7 +596,7 @@ impl Prop for C24 {
         "C24"
     }
     fn rule(&self) -> &'static str {
-        "(sendsync <type>): rustc's own answer (method-resolution probe compiled against /repo's working tree) for a menu of concrete types — the six property types, Arc handles, the other public IR definitions, generic instantiations Operation<L,R> / DataContext<V> with thread-safe and thread-unsafe arguments (Rc, Cell, RefCell, raw pointer, Mutex/RwLock/OnceLock of cells), references, trait objects with and without Send/Sync bounds, every external leaf-table entry — against the Lean derivation sendSync over the regenerated TypeDefs table; non-trivial when the type is one of /repo's definitions or an instantiation of one. (hashfree <Name>): for every extracted definition, an independent Rust walk for HashMap/HashSet reachability against the Lean one. (run-shared <file>), (run-mix <seed> <n>), (compile-shared <dir> <file>): runtime cases — 16 threads released by a barrier share one Arc<NumbersAdapter> (which owns the Schema) and Arc<IndexedQuery>; each compiles the query concurrently and executes both the shared compiled query and its own; the compiled query must equal, and the rows must equal, the sequential ones (ORACLE). For runtime cases the model has nothing to compute: both sides answer the constant `ok`, the verdict comes from the oracle alone; thread interleavings are sampled, not enumerated. Queries: every file with schema_name numbers of trustfall_core/test_data/tests/valid_queries (executed) and frontend_errors (compiled only: the error must be the same)."
+        "(sendsync <type>): rustc's own answer (method-resolution probe compiled against /repo's working tree) for a menu of concrete types — the six property types, Arc handles, the other public IR definitions, generic instantiations Operation<L,R> / DataContext<V> with thread-safe and thread-unsafe arguments (Rc, Cell, RefCell, raw pointer, Mutex/RwLock/OnceLock of cells), references, trait objects with and without Send/Sync bounds, every external leaf-table entry — against the Lean derivation sendSync over the regenerated TypeDefs table; non-trivial when the type is one of /repo's definitions or an instantiation of one. (hashfree <Name>): for every extracted definition, an independent Rust walk for HashMap/HashSet reachability against the Lean one. (immutable <Name>): for every extracted definition, an independent Rust walk for cells / locks / atomics reachable through field types against the Lean one. (run-fresh <file> <rounds>): first executions race — every round compiles a FRESH query from the shared schema, releases 8 threads (barrier + spin, own adapter each) that all start interpret_ir on that same brand-new Arc<IndexedQuery>, compares every thread's rows and a subsequent sequential re-execution of the shared compiled query with reference rows from an independently compiled copy executed on one thread; 40 rounds (quick) / 250 (thorough) for every query with @fold (outputs inside folds, nested folds, fold counts), 4 / 20 for the rest of the pool (recursion, optional, tags, coercions); stops at the first failing schedule. (run-shared <file>), (run-mix <seed> <n>), (compile-shared <dir> <file>): runtime cases — 16 threads released by a barrier share one Arc<NumbersAdapter> (which owns the Schema) and Arc<IndexedQuery>; each compiles the query concurrently and executes both the shared compiled query and its own; the compiled query must equal, and the rows must equal, the sequential ones (ORACLE). For runtime cases the model has nothing to compute: both sides answer the constant `ok`, the verdict comes from the oracle alone; thread interleavings are sampled, not enumerated. Queries: every file with schema_name numbers of trustfall_core/test_data/tests/valid_queries (executed) and frontend_errors (compiled only: the error must be the same)."
     }
     fn generate(&self, tier: Tier, rng: &mut Rng) -> Vec<Case> {
         let mut out = vec![];
@@ -500,7 +615,40 @@ impl Prop for C24 {
         for name in self.defs.keys() {
             out.push(Case::new(Sexp::call("hashfree", vec![Sexp::atom(name.clone())]), &["hashfree", "nt:repo-definition"]));
         }
+        for name in self.defs.keys() {
+            out.push(Case::new(Sexp::call("immutable", vec![Sexp::atom(name.clone())]), &["immutable", "nt:repo-definition"]));
+        }
         let valid = stems("valid_queries");
+        // first executions of a fresh compiled query, racing: more rounds for queries with folds
+        // (outputs inside folds, nested folds, fold counts), fewer for the rest of the pool
+        // (recursion, optional, tags, coercions, filters)
+        for s in &valid {
+            let Some(t) = load("valid_queries", s) else { continue };
+            let folds = t.query.matches("@fold").count();
+            let rounds = match (tier, folds) {
+                (Tier::Quick, 0) => 4,
+                (Tier::Quick, _) => 40,
+                (_, 0) => 20,
+                (_, _) => 250,
+            };
+            let mut tags = vec!["run-fresh", "nt:concurrent-first-execution"];
+            if folds > 0 {
+                tags.push("nt:fresh-fold-query");
+            }
+            if folds > 1 {
+                tags.push("nt:fresh-nested-or-multiple-folds");
+            }
+            if t.query.contains("@recurse") {
+                tags.push("fresh-recurse");
+            }
+            if t.query.contains("@optional") {
+                tags.push("fresh-optional");
+            }
+            if t.query.contains("@tag") {
+                tags.push("fresh-tag");
+            }
+            out.push(Case::new(Sexp::call("run-fresh", vec![Sexp::atom(s.clone()), Sexp::atom(rounds.to_string())]), &tags));
+        }
         let reps = if tier == Tier::Quick { 1 } else { 5 };
         for rep in 0..reps {
             for s in &valid {
@@ -537,6 +685,12 @@ impl Prop for C24 {
                 Some(format!("{} {}", bit(*s), bit(*y)))
             }
             ("hashfree", [n]) => Some(bit(hash_free(&self.defs, n.as_atom()?)).to_string()),
+            ("immutable", [n]) => Some(bit(immutable_from(&self.defs, n.as_atom()?)).to_string()),
+            ("run-fresh", [stem, rounds]) => {
+                let t = load("valid_queries", stem.as_atom()?)?;
+                self.run_fresh(&request.to_string(), &t, seed_n(rounds)?.min(5000));
+                Some("ok".to_string())
+            }
             ("run-shared", [stem, ..]) => {
                 let t = load("valid_queries", stem.as_atom()?)?;
                 self.run_shared(&request.to_string(), &t, true);
@@ -613,6 +767,8 @@ impl Prop for C24 {
             "threads": THREADS,
             "probe_types": count("(sendsync"),
             "definitions_extracted": self.defs.len(),
+            "run_fresh": count("(run-fresh"), "fresh_threads": FRESH_THREADS,
+            "fresh_rounds": evaluated.iter().filter_map(|e| e.request.as_call()).filter(|(h, _)| *h == "run-fresh").filter_map(|(_, a)| a.get(1)?.as_atom()?.parse::<usize>().ok()).sum::<usize>(),
             "run_shared": count("(run-shared"), "compile_shared": count("(compile-shared"), "run_mix": count("(run-mix"),
             "sequential_rows_reproduced_concurrently": res.values().map(|r| r.sequential_rows).sum::<usize>(),
             "thread_runs": res.len() * THREADS,
